@@ -460,6 +460,8 @@ type Walker struct {
 	Paths    int64
 	Drift    int64
 	drifts   []string
+	// SamplePath is one replayed path written out (evidence sample)
+	SamplePath []string
 	errs     []error
 }
 
@@ -818,6 +820,17 @@ func (w *Walker) RunPath(target *tlc.Node, rng *rand.Rand) error {
 	if w.OnPathEnd != nil {
 		w.OnPathEnd(env)
 	}
+	w.mu.Lock()
+	if len(trace) >= 6 && len(trace) > len(w.SamplePath) && len(w.SamplePath) < 12 {
+		w.SamplePath = nil
+		for i, ts := range trace {
+			if i >= 30 {
+				break
+			}
+			w.SamplePath = append(w.SamplePath, ts.Action+" -> "+ts.Result)
+		}
+	}
+	w.mu.Unlock()
 	return nil
 }
 
